@@ -461,6 +461,47 @@ func (t *tamper) apply(kind int) string {
 				return "add.matrix-dimension"
 			}
 		}
+		if adj := m.Get("adjustments"); m.Kind == gen.KMap && adj != nil && adj.Kind == gen.KSeq && len(adj.Seq) > 0 && t.draw(4, "mut:matrix-adj") == 3 {
+			a := adj.Seq[t.draw(len(adj.Seq), "mut:adjidx")]
+			switch t.draw(3, "mut:adjop") {
+			case 0:
+				// the list of adjustments is content: one listed twice is not the list it was
+				adj.Seq = append(adj.Seq, a.Clone())
+				return "duplicate.matrix-adjustment"
+			case 1:
+				// whether a combination is skipped is content, however the reason is spelled
+				if a.Kind == gen.KMap {
+					sk := a.Get("skip")
+					switch {
+					case sk == nil:
+						a.Set("skip", gen.Str("false"))
+						return "add.matrix-adjustment-skip-reason-spelled-false"
+					case sk.Kind == gen.KStr && sk.S != "":
+						a.Del("skip")
+						return "drop.matrix-adjustment-skip-reason"
+					case sk.Kind == gen.KBool && !sk.B:
+						a.Set("skip", gen.Str("false"))
+						return "corrupt.matrix-adjustment-skip-false-to-reason-spelled-false"
+					case sk.Kind == gen.KBool && sk.B:
+						a.Del("skip")
+						return "drop.matrix-adjustment-skip"
+					}
+				}
+			default:
+				if a.Kind == gen.KMap {
+					if w := a.Get("with"); w != nil && w.Kind == gen.KMap && len(w.Keys) > 0 {
+						i := t.draw(len(w.Keys), "mut:withidx")
+						v := w.Vals[i]
+						s := v.S
+						if v.Kind != gen.KStr {
+							s = strings.Trim(string(v.ToJSON(nil)), `"`)
+						}
+						w.Vals[i] = gen.Str(s + "~")
+						return "corrupt.matrix-adjustment-with-value"
+					}
+				}
+			}
+		}
 		if t.draw(4, "mut:matrix-extra") == 3 {
 			// matrix-level extra keys are part of the signed matrix
 			if m.Kind == gen.KSeq {
